@@ -22,9 +22,9 @@ TIERS = {
         hist=dict(Dirs={1, 2}, Versions={1, 2}, MaxDepth=5),
         conv_mod=32, hist_mod=3),
     "thorough": dict(
-        conv=dict(MaxChan=2, ShapeCodes={11, 12, 21, 22}, MaxPlace=2, Kinds=ALL_KINDS, MaxFixed=2, MaxMeas=2, AllowZero=True, Lean=False),
+        conv=dict(MaxChan=2, ShapeCodes={11, 12, 21, 22}, MaxPlace=2, Kinds=ALL_KINDS, MaxFixed=2, MaxMeas=2, AllowZero=True, Lean=True),
         hist=dict(Dirs={1, 2}, Versions={1, 2}, MaxDepth=6),
-        conv_mod=150, hist_mod=1),
+        conv_mod=25, hist_mod=1),
 }
 
 CONV_INV = ["FamilyExportable", "RoundTripDef", "ImplOnlyLumiSigma", "ImplLumiPrediction", "ImplAgreesIffLumiOne", "ImplXmlSameButRelErr"]
